@@ -946,10 +946,15 @@ func parseEpisode(line string) (episode, rigCfg, bool) {
 func replayBatch(c *Ctx, lines []string) {
 	rs := &rigs{m: map[rigCfg]*rig{}}
 	defer rs.closeAll()
+	prev := ""
 	for _, l := range lines {
-		if strings.HasPrefix(l, "!") {
-			continue
+		if strings.HasPrefix(l, "!") { // an oracle line alone (replay of a failing input): run its episode
+			l = l[1:]
+			if l == prev {
+				continue
+			}
 		}
+		prev = l
 		e, g, ok := parseEpisode(l)
 		if !ok {
 			c.Emit(l, "bad-op", false)
